@@ -21,6 +21,9 @@ from .. import tlc
 from ..core import scribble
 
 
+HELD = {}
+
+
 def aes_part(chk, rng):
     import scared
     q = chk.tier == 'quick'
@@ -58,6 +61,11 @@ def aes_part(chk, rng):
                 recorded.append({'k': ki + 1, 'a': a, 'b': b, 'out': [int(x) for x in np.asarray(out).reshape(-1)], 'what': 'key_expansion'})
                 scribble(out)
         ks = np.asarray(scared.aes.key_schedule(np.array(key, dtype=['uint8', 'int16', '>u4', 'int64'][ki % 4])))
+        # the schedule obtained for the previous key of this size is still held by the caller: computing another one must not change it
+        if HELD.get(nk) is not None and not np.array_equal(HELD[nk][0], HELD[nk][1]):
+            chk.violation('key_schedule:a schedule returned earlier is not changed by later calls', {'property': 'C10', 'part': 'aes', 'key': key, 'previous_key': HELD[nk][2]},
+                          f'aes.key_schedule: the schedule returned for {HELD[nk][2][:4]}... changed when the schedule of {key[:4]}... was computed')
+        HELD[nk] = (np.asarray(scared.aes.key_schedule(np.array(key, dtype='uint8'))), ks.copy(), key)
         recorded.append({'k': ki + 1, 'a': 0, 'b': total, 'out': [int(x) for x in ks.reshape(-1)], 'what': 'key_schedule', 'shape': list(ks.shape)})
         scribble(ks)
         if nk == 4:
@@ -141,6 +149,14 @@ def des_part(chk, rng):
                 chk.violation('des.key_schedule:key batches', {'property': 'C10', 'part': 'des', 'keys': batch.tolist(), 'interrupt_after_round': i, 'got_shape': list(gb.shape)},
                               f'des.key_schedule on a batch of {hi - lo} keys, interrupt_after_round={i}: shape {gb.shape}')
             scribble(gb)
+    # more keys than any internal slicing (4096 + 150), cycling through the keys above: row j is the schedule of key j
+    sel = [(7 * j + 3) % len(keys) for j in range(4096 + 150)]
+    gb = np.asarray(scared.des.key_schedule(np.array(keys, dtype='uint8')[sel]))
+    wantb = np.array([rk[j] for j in range(len(keys))], dtype='int64')[sel]
+    chk.count(('des-batch-large', len(sel)), nontrivial=True)
+    if gb.shape != wantb.shape or not np.array_equal(gb, wantb):
+        badk = int(np.nonzero(np.any(gb.reshape(len(sel), -1) != wantb.reshape(len(sel), -1), axis=1))[0][-1]) if gb.shape == wantb.shape else -1
+        chk.violation('des.key_schedule:key batches', {'property': 'C10', 'part': 'des', 'rows': len(sel), 'last_bad_row': badk, 'got_shape': list(gb.shape)}, f'des.key_schedule on a batch of {len(sel)} keys: row {badk} is not the schedule of its key')
     # get_master_key from every round key
     recovered = []
     nm = 2 if q else 12
